@@ -52,6 +52,31 @@ Definition diff_points (copy_nan : bool) (a b : series) : list point * list poin
   if negb (zlen (s_vals a) =? zlen (s_vals b)) then (series_points a, series_points b)
   else diff_vals copy_nan (s_step a) (s_from a) (s_from b) 0 (s_vals a) (s_vals b).
 
+(** [TimeSeries.Equal] (= EqualTimeRangeAndStep && valuesEqual), [Point.Equal], [Points.Equal], [Points.Diff] *)
+Fixpoint vals_equal (a b : list Z) : bool :=
+  match a, b with
+  | [], [] => true
+  | x :: r, y :: q => veq x y && vals_equal r q
+  | _, _ => false
+  end.
+Definition series_equal (a b : series) : bool := eq_range_step a b && vals_equal (s_vals a) (s_vals b).
+Definition point_equal (p q : point) : bool := (p_time p =? p_time q) && veq (p_val p) (p_val q).
+Fixpoint points_equal (p q : list point) : bool :=
+  match p, q with
+  | [], [] => true
+  | x :: r, y :: s => point_equal x y && points_equal r s
+  | _, _ => false
+  end.
+Fixpoint points_diff_same_len (p q : list point) : list point * list point :=
+  match p, q with
+  | x :: r, y :: s =>
+    let '(a, b) := points_diff_same_len r s in
+    if point_equal x y then (a, b) else (x :: a, y :: b)
+  | _, _ => ([], [])
+  end.
+Definition points_diff (p q : list point) : list point * list point :=
+  if negb (zlen p =? zlen q) then (p, q) else points_diff_same_len p q.
+
 (** [TimeSeriesList.Diff] / [DiffExcludeSrcNaN] *)
 Definition tsl_diff (copy_nan : bool) (tl ul : list series) : list (list point) * list (list point) :=
   if negb (zlen tl =? zlen ul) then (map series_points tl, map series_points ul)
